@@ -118,8 +118,45 @@ func genSpec(r *rand.Rand, ver version.Version, big bool) *sxSpec {
 	if r.Intn(2) == 0 {
 		sp.resph.Add("Cache-Control", []string{"max-age=100", "public", "public, max-age=1", "s-maxage=5"}[r.Intn(4)])
 	}
+	// headers that say something ABOUT the message or its caching are, to this format, header fields like any other: whatever
+	// they declare (a length that is not the payload's, a date that is not a date) is signed and handed back, not acted on
+	if r.Intn(3) == 0 {
+		switch r.Intn(8) {
+		case 0:
+			sp.resph.Add("Content-Length", []string{"0", "1", "5", "17", "4096", "99999999999", "-1", "abc", ""}[r.Intn(9)])
+		case 1:
+			sp.resph.Add("Expires", []string{"Thu, 01 Jan 2099 00:00:00 GMT", "0", "-1", "2099-01-01T00:00:00Z", "never", ""}[r.Intn(6)])
+			if r.Intn(2) == 0 {
+				sp.status = []int{201, 302, 307, 403, 500}[r.Intn(5)]
+			}
+		case 2:
+			sp.resph.Add("Content-Range", "bytes 0-4/5")
+			sp.resph.Add("Accept-Ranges", "bytes")
+		case 3:
+			sp.resph.Add("Age", []string{"0", "86400", "x"}[r.Intn(3)])
+			sp.resph.Add("Date", []string{"Thu, 01 Jan 2015 00:00:00 GMT", "0"}[r.Intn(2)])
+		case 4:
+			sp.resph.Add("Vary", []string{"*", "Accept-Encoding", "accept, cookie"}[r.Intn(3)])
+		case 5:
+			sp.resph.Add("Content-Location", "https://other.example/elsewhere")
+			sp.resph.Add("Last-Modified", "yesterday")
+			sp.resph.Add("ETag", "\"abc\"")
+		case 6:
+			// field names over the whole token alphabet of RFC 7230 (tchar), not only letters, digits and dashes
+			for _, n := range []string{"x^caret", "x|bar", "x~tilde", "x!bang", "x#$%&'*+.^_`|~y", "1numeric", "_"} {
+				if r.Intn(2) == 0 {
+					sp.resph.Add(n, "v")
+				}
+			}
+		default:
+			sp.resph["X-No-Values"] = nil // a name mapped to no value: the comma-join of zero values is the empty string
+		}
+	}
 	for i := 0; i < r.Intn(3); i++ {
 		sp.reqh.Add(randCase(r, "accept-"+randToken(r, 1+r.Intn(6))), randValue(r, lens[r.Intn(len(lens))]))
+	}
+	if r.Intn(12) == 0 && ver != version.Version1b3 {
+		sp.reqh.Add([]string{"x^caret", "x|bar", "x#$%&'*+.^_`|~y"}[r.Intn(3)], "v")
 	}
 	if r.Intn(16) == 0 { // a response that already has a (foreign or stale) digest header
 		dn := ver.MiceEncoding().DigestHeaderName()
@@ -235,6 +272,42 @@ func sxgFull(args []string) error {
 				signEx(it.se, it.sp, it.kc, nil)
 			}
 			finishFull(it.id, it.sp, it.kc, it.se, instants(it.sp))
+		}
+	}
+	// fixed instances (not sampled): one feature each on an otherwise plain exchange, every version
+	for _, ver := range version.AllVersions {
+		var specs []*sxSpec
+		mk := func(f func(sp *sxSpec)) {
+			sp := baseSpec(r, ver)
+			f(sp)
+			specs = append(specs, sp)
+		}
+		for _, ev := range []string{"Thu, 01 Jan 2099 00:00:00 GMT", "0", "-1", "2099-01-01T00:00:00Z", "never", ""} {
+			for _, st := range []int{302, 403} {
+				ev, st := ev, st
+				mk(func(sp *sxSpec) { sp.resph.Del("Cache-Control"); sp.resph.Set("Expires", ev); sp.status = st })
+			}
+		}
+		for _, cl := range []string{"0", "1", "5", "33", "34", "112", "99999999999", "-1", "abc"} {
+			cl := cl
+			mk(func(sp *sxSpec) { sp.resph.Set("Content-Length", cl) })
+		}
+		mk(func(sp *sxSpec) {
+			for _, n := range []string{"x^caret", "x|bar", "x~tilde", "x!bang", "x#$%&'*+.^_`|~y", "1numeric", "_"} {
+				sp.resph.Add(n, "v")
+				sp.reqh.Add(n, "w")
+			}
+		})
+		mk(func(sp *sxSpec) { sp.resph["X-No-Values"] = nil; sp.reqh["X-No-Values"] = []string{} })
+		mk(func(sp *sxSpec) { sp.payload = nil })
+		for _, sp := range specs {
+			id++
+			kc := kcs[id%2]
+			se := prepareEx(sp)
+			if se.err == "" {
+				signEx(se, sp, kc, nil)
+			}
+			finishFull(fmt.Sprintf("x%d", id), sp, kc, se, instants(sp))
 		}
 	}
 	// a signature held in flight while another exchange is signed completely (one scheduler thread, so that both calls
